@@ -52,7 +52,7 @@ inductive Out
 
 def slotLimit : Nat := 8
 def planeLimit : Nat := 2
-def u64Limit : Nat := 18446744073709551616
+def u64Limit : Nat := u64
 
 /-! ## In-memory store -/
 
